@@ -843,6 +843,8 @@ def run(res, tier):
     res.rule("C04.7 level-uniform operators: the level argument of M2M / M2L / L2L only subscripts the per-level tables (no branch, loop bound or selection over the operator's cells depends on it); the kernel names no executor boundary level")
     import c05
     c05.level_uniform(facts, res, K, "C04.7.level-uniform")
+    res.rule("C04.10 full-order loops: every loop of the operators runs over a range fixed by template constants and enclosing loop variables, or over the items handed to the operator - never over a bound computed from the data of the call")
+    res.floor("C04.10", c05.full_order_loops(facts, res, K, "C04.10.full-order-loops"), 15, "loops in the rotation kernel's operators")
     res.rule("C04.9 finite at the centre and on the axis: in the spherical-coordinates constructor and the leaf operators every division by the particle's radius relative to the leaf centre, or by the sine of its polar angle, is under a test of that quantity")
     res.floor("C04.9", pole_divisions(facts, res), 4, "divisions by the radius / sine of the polar angle")
     res.rule("C04.8 per-item scratch: a local array declared outside an operator's item loop and written inside it is fully redefined (copyall / setall / ...) at the top of every iteration before anything else touches it - what is computed for one child / transfer source never depends on which items came before it")
